@@ -116,6 +116,7 @@ pub fn exec(func: &str, a: &mut Args) -> String {
             }
         }
         "epa2" => fu4::exec_epa2(a),
+        "epa2c" => fu4::exec_epa2c(a),
         _ => "nofn".into(),
     }
 }
@@ -649,6 +650,15 @@ pub mod fu4 {
             Some((p1, p2, nn)) => format!("{} {} {}", d2::fp(&p1), d2::fp(&p2), d2::fv(&nn)),
         }
     }
+    /// `epa2c`: the real `contact_support_map_support_map(pos12, g1, g2, 1.0)` (its own GJK + EPA + assembly); the trailing
+    /// simplex arguments are what the library's GJK ends on for these shapes (recorded by the generator) and are read by the model only
+    pub fn exec_epa2c(a: &mut Args) -> String {
+        let (k1, a1, b1) = (a.u(), a.f(), a.f()); let (k2, a2, b2) = (a.u(), a.f(), a.f());
+        let pos12 = d2::iso(a);
+        let (g1, g2) = (shape(k1, a1, b1), shape(k2, a2, b2));
+        let c = crate::p2::query::details::contact_support_map_support_map(&pos12, &*g1, &*g2, 1.0);
+        super::c03::two::fcontact(&c)
+    }
     fn emit(v: &mut Vec<(String, String)>, sh: &str, pos12: &Iso2, pts: &[Cso2]) {
         let mut sx = Vs2::new();
         for (i, p) in pts.iter().enumerate() { if i == 0 { sx.reset(*p); } else if !sx.add_point(*p) { return; } }
@@ -678,10 +688,12 @@ pub mod fu4 {
                 let dir = d2::na::Unit::try_new(pos12.translation.vector, f64::EPSILON).unwrap_or(Vec2::x_axis());
                 let mut sx = Vs2::new();
                 sx.reset(Cso2::from_shapes(&pos12, &*g1, &*g2, &dir));
-                if let Res2::Intersection = gjk2::closest_points(&pos12, &*g1, &*g2, f64::MAX, true, &mut sx) {
+                if let Res2::Intersection = gjk2::closest_points(&pos12, &*g1, &*g2, 1.0, true, &mut sx) {
                     let pts: Vec<Cso2> = (0..sx.dimension() + 1).map(|i| *sx.point(i)).collect();
                     fam[sx.dimension()] += 1;
+                    let before = v.len();
                     emit(v, &sh, &pos12, &pts);
+                    if v.len() > before { let args = v[before].1.clone(); v.push(("epa2c".into(), args)); }
                 }
             }
             // family `dirs`: CSO points of chosen directions
